@@ -521,6 +521,7 @@ func runC04(c *fw.Ctx) {
 	for i := 0; i < c.Pick(400, 4000); i++ { // exact power-of-two scaling: (s.A).(B/s) = A.B bit for bit, also for s = 2^-840
 		c.Case(func(k *fw.K) { c04Scaled(k) })
 		c.Case(func(k *fw.K) { c04MixedMagnitudes(k) })
+		c.Case(func(k *fw.K) { c04Structured(k) })
 	}
 
 	// tensors that took part in REJECTED calls are used again
@@ -636,6 +637,108 @@ func c04MixedMagnitudes(k *fw.K) {
 	}
 	if e := rt.Compare(y, want, 0, 0, nil, 0); e != nil {
 		k.Failf("%s %v x %v with per-position scalings 2^%v of A and 2^-%v of B (every product a small integer): %v", in.Op, sa, sb, es, es, e)
+	}
+}
+
+// c04Structured: one operand is a matrix that LOOKS special without being it - a unit diagonal with off-diagonal entries that cancel
+// (identity plus a skew part, unit-triangular with entries summing to zero), a permutation, a matrix whose rows or columns all sum to
+// 1, a symmetric one, rank one - in one batch entry or in all of them. Entries are multiples of 1/4: every product and sum is exact.
+func c04Structured(k *fw.K) {
+	r := k.Rng
+	n := 2 + r.Intn(3)
+	batch := [][]int{{}, {2}, {3}, {2, 1}}[r.Intn(4)]
+	sa := append(ref.CopyInts(batch), 1+r.Intn(3), n)
+	sb := append(ref.CopyInts(batch), n, n)
+	if r.Intn(3) == 0 {
+		sb = []int{n, n} // one structured matrix broadcast over the batch
+	}
+	a, b := ref.Zeros(sa), ref.Zeros(sb)
+	q := func() float64 { return float64(r.Intn(17)-8) / 4 }
+	for i := range a.Data {
+		a.Data[i] = q()
+	}
+	kind := r.Intn(6)
+	kinds := []string{"identity plus skew part", "unit triangular, off-diagonal entries cancelling", "permutation", "rows summing to 1", "symmetric with unit diagonal", "rank one"}
+	for m := 0; m < len(b.Data)/(n*n); m++ {
+		at := func(i, j int) *float64 { return &b.Data[m*n*n+i*n+j] }
+		only := r.Intn(3) == 0 && m > 0 // in some batch entries only: the others are ordinary
+		if only {
+			for i := 0; i < n*n; i++ {
+				b.Data[m*n*n+i] = q()
+			}
+			continue
+		}
+		switch kind {
+		case 0:
+			for i := 0; i < n; i++ {
+				*at(i, i) = 1
+				for j := i + 1; j < n; j++ {
+					v := q()
+					*at(i, j), *at(j, i) = v, -v
+				}
+			}
+		case 1:
+			for i := 0; i < n; i++ {
+				*at(i, i) = 1
+			}
+			v := q()
+			if v == 0 {
+				v = 0.5
+			}
+			*at(0, 1) = v
+			if n > 2 {
+				*at(0, 2) = -v
+			} else {
+				*at(1, 0) = -v
+			}
+		case 2:
+			for i, j := range r.Perm(n) {
+				*at(i, j) = 1
+			}
+		case 3:
+			for i := 0; i < n; i++ {
+				sum := 0.
+				for j := 1; j < n; j++ {
+					*at(i, j) = q()
+					sum += *at(i, j)
+				}
+				*at(i, 0) = 1 - sum
+			}
+		case 4:
+			for i := 0; i < n; i++ {
+				*at(i, i) = 1
+				for j := i + 1; j < n; j++ {
+					v := q()
+					*at(i, j), *at(j, i) = v, v
+				}
+			}
+		default:
+			u, w := make([]float64, n), make([]float64, n)
+			for i := range u {
+				u[i], w[i] = q(), q()
+			}
+			for i := 0; i < n; i++ {
+				for j := 0; j < n; j++ {
+					*at(i, j) = u[i] * w[j]
+				}
+			}
+		}
+	}
+	xs := []*ref.T{a, b}
+	side := "right"
+	if r.Intn(3) == 0 { // the structured matrix on the left: B x A^T-shaped operand
+		at := ref.Zeros(append(ref.CopyInts(batch), n, sa[len(sa)-2]))
+		for i := range at.Data {
+			at.Data[i] = q()
+		}
+		xs, side = []*ref.T{b, at}, "left"
+	}
+	in := ref.Instr{Op: "matmul"}
+	k.Case = fcase{In: in, Ops: xs, Tag: kinds[kind] + " on the " + side}
+	k.Key("matmul-structured/%s/%s/%d/%s", shapeKey(xs[0].Shape), shapeKey(xs[1].Shape), kind, side)
+	k.Count("structured_matrix_cases", 1)
+	if msg := forwardCase(in, xs, true); msg != "" {
+		k.Failf("MatMul %v x %v with a structured operand (%s, on the %s): %s", xs[0].Shape, xs[1].Shape, kinds[kind], side, msg)
 	}
 }
 
